@@ -363,6 +363,9 @@ func c12GenProgram(r *rand.Rand, id int) (string, []map[string]any) {
 		case "error":
 			return []string{"nil", "errors.New(\"e\")"}[n%2], fmt.Sprint(n%2 == 0)
 		}
+		if n%3 == 0 {
+			return fmt.Sprint(n), fmt.Sprint(n) // an integer constant stored in a float64 field
+		}
 		return fmt.Sprintf("%d.5", n), fmt.Sprintf("%d.5", n)
 	}
 	readExpr := func(v string, f int) string {
@@ -385,6 +388,12 @@ func c12GenProgram(r *rand.Rand, id int) (string, []map[string]any) {
 			f := r.Intn(nfields)
 			fmt.Fprintf(&b, "\tprintln(\"R\", %d, %s)\n", len(evs), readExpr(vars[v], f))
 			evs = append(evs, map[string]any{"op": "read", "var": v + 1, "f": f})
+		case nfields > 0 && x < 88:
+			f := r.Intn(nfields)
+			if !nillable(ftypes[f]) {
+				fmt.Fprintf(&b, "\tprintln(\"R\", %d, __type(%s.F%d))\n", len(evs), vars[v], f)
+				evs = append(evs, map[string]any{"op": "type", "var": v + 1, "f": f})
+			}
 		case nmeth > 0 && x < 90:
 			m := r.Intn(nmeth)
 			fmt.Fprintf(&b, "\tprintln(\"M\", %d, %s.M%d())\n", len(evs), vars[v], m)
@@ -536,13 +545,13 @@ func c12Script(c *Ctx, r *rand.Rand) {
 		starts = append(starts, len(lines))
 		srcs = append(srcs, src)
 		// declared field types -> zero values are part of the trace header
-		lines = append(lines, map[string]any{"op": "reset", "id": fmt.Sprintf("script/%d", p), "zeros": c12Zeros(src)})
+		lines = append(lines, map[string]any{"op": "reset", "id": fmt.Sprintf("script/%d", p), "zeros": c12Zeros(src), "types": c12Types(src)})
 		for i, e := range evs {
 			l := map[string]any{"op": e["op"], "var": e["var"]}
 			for k, v := range e {
 				l[k] = v
 			}
-			if e["op"] == "read" || e["op"] == "readnil" || e["op"] == "method" {
+			if e["op"] == "read" || e["op"] == "readnil" || e["op"] == "method" || e["op"] == "type" {
 				v, ok := obs[i]
 				if !ok {
 					v = "<missing>"
@@ -573,7 +582,7 @@ func c12Script(c *Ctx, r *rand.Rand) {
 		}
 		starts = append(starts, len(lines))
 		srcs = append(srcs, desc)
-		lines = append(lines, map[string]any{"op": "reset", "id": fmt.Sprintf("host/%d", p), "zeros": zeros})
+		lines = append(lines, map[string]any{"op": "reset", "id": fmt.Sprintf("host/%d", p), "zeros": zeros, "types": c12Types(desc)})
 		for _, e := range evs {
 			for _, k := range []string{"f", "val", "of", "m", "got", "nfields"} {
 				if _, ok := e[k]; !ok {
@@ -606,6 +615,27 @@ func c12Script(c *Ctx, r *rand.Rand) {
 	}
 	c.TracesVsImpl += int64(len(starts) - len(bad))
 	c.Extra["struct_programs"] = len(starts)
+}
+
+// c12Types returns, per field of type T, the name goatlang's __type gives the declared type ("" for types the trace
+// does not observe).
+func c12Types(src string) []string {
+	out := []string{}
+	in := false
+	for _, line := range strings.Split(src, "\n") {
+		if strings.HasPrefix(line, "type T struct") {
+			in = true
+			continue
+		}
+		if in {
+			if strings.HasPrefix(line, "}") {
+				break
+			}
+			f := strings.Fields(line)
+			out = append(out, map[string]string{"int": "int32", "byte": "uint8", "float64": "float64", "string": "string", "bool": "bool"}[f[1]])
+		}
+	}
+	return out
 }
 
 // c12Zeros returns the printed zero value of every field F<i> of type T in declaration order.
@@ -755,6 +785,7 @@ func c12HostHistory(r *rand.Rand, id int) (desc string, zeros []string, evs []ma
 			}
 			fmt.Fprintf(&log, "read route=%d v%d.F%d -> %s\n", route, v, f, text(ftypes[f], got))
 			evs = append(evs, map[string]any{"op": "read", "var": v + 1, "f": f, "got": text(ftypes[f], got)})
+			evs = append(evs, map[string]any{"op": "type", "var": v + 1, "f": f, "got": vm.VerifTypeOf(got)})
 		case x < 86:
 			got := call1("main.CallM0", vars[v])
 			fmt.Fprintf(&log, "method v%d.M0() -> %s\n", v, text(ftypes[mf], got))
